@@ -1,8 +1,8 @@
-(* CorePhase2AcctKact.v -- raw events, the kick descriptor and events leave a descriptor t
+(* CorePhase2K1Act.v -- raw events, the kick descriptor and events leave a descriptor t
    alone, given that t is none of the descriptors they own and t is below next_fd. *)
 From Coq Require Import List ZArith Bool Lia.
-From Ivv Require Import Core.Kernel Core.CoreTypes Core.CoreFd Core.CoreModel Core.CoreRelBase
-  Core.CorePhase2AcctTr Core.CorePhase2AcctFd Core.CorePhase2AcctKt Core.CorePhase2AcctKfd.
+From Ivv Require Import Core.Kernel Core.CoreTypes Core.CoreFd Core.CoreModel Core.CoreSpec Core.CoreRelBase
+  Core.CorePhase2K1Base Core.CorePhase2K1Fd.
 Import ListNotations.
 Local Open Scope Z_scope.
 
@@ -299,9 +299,9 @@ Ltac tfa := match goal with |- ARes (TF ?t ?s) ?r =>
 Lemma TF_kern_act : forall t s a k', KT t (kern s) k' -> TF t s (set_kern (emit s (TAct a)) k').
 Proof. intros. constructor; try reflexivity. assumption. Qed.
 
-Theorem do_action_TF : forall t s a, AL t s -> Core.CoreSpec.wf_action a -> ARes (TF t s) (do_action s a).
+Theorem do_action_TF : forall t s a, AL t s -> wf_action a -> ARes (TF t s) (do_action s a).
 Proof.
-  intros t s a A W. destruct a; cbn [do_action Core.CoreSpec.wf_action] in *.
+  intros t s a A W. destruct a; cbn [do_action wf_action] in *.
   - (* AFdReg *) repeat dm; cbn [ARes]; try apply TF_refl. tfa. eapply ARes_imp; [apply (fd_register_KF t)|exact (KF_TF t _)].
   - (* AFdTry *) dm; [apply TF_refl|].
     assert (Q : ARes (TF t (emit s (TAct (AFdTry i)))) (fst (fd_register_try (emit s (TAct (AFdTry i))) i))).
